@@ -572,7 +572,7 @@ void sim_mon_model_action(struct sim *s, struct mevent *e)
 		CNT("sim/model_events_uncertain_after_fault");
 		switch (e->action) {
 		case MA_FIRST_HDR:
-			if (s->mv == 1 && e->arg == 0 && e->arg2 != 10)
+			if (s->mv == 1 && e->arg == 0 && (e->arg2 & 0xff) != 10)
 				s->mv_optional_lower = true;
 			break;
 		case MA_ERR_DELIVERED:
@@ -593,9 +593,17 @@ void sim_mon_model_action(struct sim *s, struct mevent *e)
 	switch (e->action) {
 	case MA_FIRST_HDR:
 		/* C13 trigger (a): the first PDU of a connection carries a lower supported version */
-		if (s->mv == 1 && e->arg == 0 && e->arg2 != 10) {
-			s->mv = 0;
-			CNT("c13/downgrade_trigger/first-pdu-v0");
+		if (s->mv == 1 && e->arg == 0 && (e->arg2 & 0xff) != 10) {
+			if (!(e->arg2 & 0x100)) {
+				s->mv = 0;
+				CNT("c13/downgrade_trigger/first-pdu-v0");
+			} else {
+				/* a first PDU whose length field is out of range cannot "continue the exchange": the library refuses
+				 * it for its length before it looks at the version (and reports in its own version); a client that
+				 * looked at the version first would be as right - lowering is tolerated, not demanded */
+				s->mv_optional_lower = true;
+				CNT("c13/downgrade_trigger/first-pdu-v0-with-length-out-of-range-optional");
+			}
 		}
 		break;
 	case MA_ERR_DELIVERED:
